@@ -86,6 +86,18 @@ def skeleton_violation(fl):
     return None
 
 
+def _as_text(inp, p):
+    """the characters the parser actually saw (bytes are decoded with the encoding it reports)"""
+    if isinstance(inp, bytes):
+        try:
+            import webencodings
+            enc = p.documentEncoding
+            return inp.decode(webencodings.lookup(enc).codec_info.name, "replace")
+        except Exception:
+            return inp
+    return inp
+
+
 def _standard_produces_it(inp, scripting, msg):
     """Known-finding classifier: the tree the standard's own algorithm (vf.ref.treebuilder, strict) builds for this
     input has the very same skeleton anomaly (after a frameset the 'in body' rules can still reconstruct formatting
@@ -179,7 +191,7 @@ def check_case(case, budget=None):
             msg = skeleton_violation(fl2)
         else:
             msg = skeleton_violation(fl)
-        if msg and active("C03-skeleton-standard-anomaly") and _standard_produces_it(inp, scripting, msg):
+        if msg and active("C03-skeleton-standard-anomaly") and _standard_produces_it(_as_text(inp, p), scripting, msg):
             return Verdict("known", finding="C03-skeleton-standard-anomaly", nontrivial=nontrivial, sig=sig)
         if msg:
             return Verdict("fail", "skeleton: %s; input %s (builder=%s ns=%s scripting=%s)" % (msg, short(inp, 200), builder, ns, scripting),
